@@ -99,6 +99,7 @@ class Agg:
         self.viol = []  # (arm, i, run_seed, violation, case)
         self.known = Counter()  # entry id -> count
         self.known_what = {}
+        self.known_sites = Counter()
         self.samples = []
         self.errors = []
         self.digests = {}
@@ -115,6 +116,7 @@ class Agg:
         self.viol.extend(o.viol)
         self.known.update(o.known)
         self.known_what.update(o.known_what)
+        self.known_sites.update(o.known_sites)
         if len(self.samples) < 6:
             self.samples.extend(o.samples[: 6 - len(self.samples)])
         self.errors.extend(o.errors[:5])
@@ -174,6 +176,7 @@ def _work(spec):
             if ent is not None:
                 agg.known[ent["id"]] += v.get("count", 1)
                 agg.known_what[ent["id"]] = ent["what"]
+                agg.known_sites[ent["id"] + " @ " + v["site"]] += v.get("count", 1)
                 continue
             c = core.vclass(v)
             per_class[c] += 1
@@ -347,6 +350,7 @@ def evidence_doc(chk, tier, seed, agg, wall, reported, truncated, planned, worke
         "real_components": chk.real_components,
         "stub_components": chk.stub_components,
         "known_findings_seen": dict(sorted(agg.known.items())),
+        "known_findings_by_site": dict(sorted(agg.known_sites.items())),
         "workers": workers,
         "exhaustive": bool(getattr(chk, "exhaustive", {}).get(tier, False)) and not truncated,
         "harness_errors": len(agg.errors),
